@@ -92,6 +92,8 @@ def _traj_names():
     names += ['npole', 'ppole']
     # trajectories whose rows are almost but not exactly unit (rounded to 6 decimals; rescaled by 1 + 3e-6): ground truth = the normalised rows
     names += ['ax5r1~r6', 'pw1~s', 'ax11r3~s', 'pw2~r6']
+    # very slow turns (1e-5 ... 1e-7 rad per sample at 100 Hz): consecutive rows are almost, but not, equal
+    names += ['ax5r0.001', 'ax11r0.0003', 'ax2r1e-05']
     return names
 
 
@@ -525,6 +527,10 @@ def run(ctx):
             full = thorough and q0 == 'I'
             for lo, hi in core.chunks(len(names), 28 if full else (14 if thorough else 8)):
                 jobs.append(('job_given', (names[lo:hi], N, f, q0, grngs, full)))
+    # record lengths around the powers of two (a blocked evaluation has its last partial block there), light configuration
+    for N in ((127, 128, 129, 130, 255, 256, 257, 385, 513, 1025) if thorough else (128, 129, 257)):
+        jobs.append(('job_random', (N, 100.0, 'def', '-', 'def', [rngs[0]], False)))
+        jobs.append(('job_given', (['ax5r1', 'pw1'], N, 100.0, 'I', [grngs[0]], False)))
     jobs.append(('job_ownership', ()))
     core.run_jobs(ctx, __name__, jobs)
     ctx.notes['generator_seeds'] = rngs
